@@ -388,6 +388,16 @@ def writeLayout (m : Mem) : List Nat → Nat → Out (Nat × Mem)
     | .panic => .panic
     | .ok m1 => if top < 8 then .panic else writeLayout m1 vs (top - 8)
 
+/-- what a *failed* `init_stack_program_start` leaves behind: the string areas allocated before the failure (the
+    registers, `stack_top` and everything else are untouched) -/
+def stringsLeftBehind (m : Mem) (argv envp : List (List Byte)) : Mem :=
+  match allocStrings m "arg" 0 argv with
+  | .ok (_, m1) =>
+    match allocStrings m1 "env" 0 envp with
+    | .ok (_, m2) => m2
+    | _ => m1
+  | _ => m
+
 /-- `init_stack_program_start(length, argv, envp)` -/
 def initStackProgramStart (s : Machine) (len : Nat) (argv envp : List (List Byte)) : Out (Nat × Machine) :=
   match allocStrings s.mem "arg" 0 argv with
@@ -401,7 +411,7 @@ def initStackProgramStart (s : Machine) (len : Nat) (argv envp : List (List Byte
       let layout : List Nat := [argv.length] ++ aAddrs ++ [0] ++ eAddrs ++ [0]
       let frame := layout.length * 8 + 48
       match u64add len frame with
-      | none => .panic
+      | none => .err   -- `length.checked_add(frame_size)`
       | some total =>
         match initStackArea m2 total with
         | .err => .err
